@@ -344,7 +344,9 @@ def gen_universe(rng, n_roots=None, max_levels=3, rich=True, force_falsy=False):
             mown.append(cf)
         classes.append(ClassSpec(mname, None, mown, falsy=False))
     plan = [(m, None) for m in mixin_names] + plan
-    fname_pool = ["a", "ab", "b", "child", "items", "x", "xs", "y", "z", "left", "right", "body", "name", "value", "t", "n", "_k", "_"]
+    # upper-case names: sorted() on names is code-point order ("B" < "_k" < "a"), not case-insensitive (seeded changes C01-7, C12-8)
+    fname_pool = ["a", "ab", "b", "child", "items", "x", "xs", "y", "z", "left", "right", "body", "name", "value", "t", "n", "_k", "_",
+                  "B", "Xs", "LHS", "lhs"]
     for idx, (cname, base) in enumerate(plan):
         if cname in mixin_names:
             continue
@@ -365,6 +367,9 @@ def gen_universe(rng, n_roots=None, max_levels=3, rich=True, force_falsy=False):
             if not free:
                 break
             name = rng.choice(free)
+            twins = [n for n in free if any(n != m and n.lower() == m.lower() for m in used)]
+            if twins and rng.random() < 0.5:
+                name = rng.choice(twins)        # a name that differs from a used one only in case ("b"/"B", "xs"/"Xs")
             used.add(name)
             k = rng.random()
             if k < 0.45 or not avail:
@@ -609,15 +614,17 @@ def universe_to_json(u):
 _U_CACHE = {}
 
 
-def universe_from_json(d):
+def universe_from_json(d, cache=True):
     from .term import from_text
 
-    key = (d["uid"], d["enum"])
+    key = (d["uid"], d["enum"]) if cache else object()
     if key not in _U_CACHE:
         classes = []
         for c in d["classes"]:
             own = [FieldSpec(f["name"], f["role"], f["compare"], f["init"], f["kw_only"], f["ptype"], f["child_types"], f["fixed"],
                              None if f["default"] is None else from_text(f["default"]), f["has_default"]) for f in c["own"]]
             classes.append(ClassSpec(c["name"], c["base"], own, c["falsy"], c["slots"], c.get("mixins", ())))
+        if not cache:
+            return Universe(classes, d["enum"], d["future"], d["uid"])
         _U_CACHE[key] = Universe(classes, d["enum"], d["future"], d["uid"])
     return _U_CACHE[key]
